@@ -456,6 +456,9 @@ func runC02(r *run) {
 	nilContextWithKeys(r.violate)
 	discardPlusLevelWriter(r.violate)
 	returnedListIsACopy(r.violate)
+	// processes started without HOME, with DEBUG=1, in another locale: calls return and deliver once
+	envProbe(r, false, "oneline", "-HOME")
+	envProbe(r, true, "oneline", "-HOME", "DEBUG=1")
 	// the same delivery oracles in go-test mode (the error dump after a record is active only there):
 	// the twin binary harness.test, oracle-only
 	if exe := os.Getenv("VERIF_HARNESS"); exe != "" {
